@@ -23,10 +23,51 @@ const XML_TOKENS: &[&[u8]] = &[
 ];
 
 const EXPR_TOKENS: &[&str] = &[
-    "1", "2.5", "(", ")", "+", "-", "*", "/", "%", ",", " ", "lt", "and", "abs(", "max(", "$v", "${v}", "#a~w", "#a", "'", "\"", "\\", "é", "e", ".", "{{", "}}", "^", "randint(",
+    "1", "2.5", "(", ")", "+", "-", "*", "/", "%", ",", " ", "lt", "and", "abs(", "max(", "$v", "${v}", "#a~w", "#a", "'", "\"", "\\", "é", "e", ".", "{{", "}}", "^", "randint(", "$", "{",
 ];
 const PATH_TOKENS: &[&str] = &["M", "m", "L", "h", "V", "z", "Z", "C", "a", "A", "b", "B", "10", "-", ".", "e", ",", " ", "#a@tl", "1e9", "é"];
 const REL_TOKENS: &[&str] = &["#a", "^", "|h", "|V", "@tl", "@t:", "~w", ":", "%", "10", "-5", " ", ",", ".", "$v", "{{", "}}", "(", ")", "url(#a)", "e", "#", "@", "|", "~"];
+
+/// reference-graph alphabets: documents are sequences of these items inside <svg>..</svg>; ids a / b are
+/// deliberately re-used so that chains, self references and cycles (through #id and through ^) arise
+const REFUSE_ITEMS: &[&str] = &[
+    r##"<rect wh="2"/>"##,
+    r##"<use id="a" href="^"/>"##,
+    r##"<use id="a" href="#a"/>"##,
+    r##"<use id="a" href="#b"/>"##,
+    r##"<use id="b" href="^"/>"##,
+    r##"<use id="b" href="#a"/>"##,
+    r##"<use id="b" href="#b"/>"##,
+    r##"<use href="^"/>"##,
+    r##"<use href="#a"/>"##,
+    r##"<use href="#b"/>"##,
+];
+const REFMIX_ITEMS: &[&str] = &[
+    r##"<rect wh="2"/>"##,
+    r##"<rect id="a" wh="2"/>"##,
+    r##"<rect id="b" xy="#a|h" wh="2"/>"##,
+    r##"<rect id="a" xy="#b|h" wh="2"/>"##,
+    r##"<rect id="a" xy="#a|h" wh="2"/>"##,
+    r##"<clipPath id="a" clip-path="url(#a)"><rect wh="3"/></clipPath>"##,
+    r##"<clipPath id="a" clip-path="url(#b)"><rect wh="3"/></clipPath>"##,
+    r##"<clipPath id="b" clip-path="url(#a)"><rect wh="3"/></clipPath>"##,
+    r##"<rect wh="2" clip-path="url(#a)"/>"##,
+    r##"<g id="b" clip-path="url(#b)"><rect wh="1"/></g>"##,
+    r##"<rect id="a" surround="#b"/>"##,
+    r##"<rect id="b" surround="#a #b"/>"##,
+    r##"<circle id="b" inside="#a"/>"##,
+    r##"<reuse id="a" href="#b"/>"##,
+    r##"<reuse id="b" href="#a"/>"##,
+    r##"<reuse href="^"/>"##,
+    r##"<use id="a" href="#b"/>"##,
+    r##"<use id="b" href="^"/>"##,
+    r##"<line id="b" start="#a" end="#b"/>"##,
+    r##"<g id="a"><use href="#a"/></g>"##,
+    r##"<symbol id="b"><reuse href="#b"/></symbol>"##,
+    r##"<rect id="a" wh="#b"/>"##,
+    r##"<rect id="b" wh="#a" xy="^|v"/>"##,
+    r##"<text id="a" xy="#b|h" text="t"/>"##,
+];
 
 /// (element template with `@` for the value) carriers for the generic relspec-ish alphabet
 const CARRIERS: &[&str] = &[
@@ -125,14 +166,69 @@ fn spaces(tier: Tier) -> Vec<Space> {
         Space { name: "exprdoc".into(), len: strings_total(EXPR_TOKENS.len(), tier.pick(3, 4)) },
         Space { name: "path".into(), len: strings_total(PATH_TOKENS.len(), tier.pick(4, 5)) },
     ];
+    v.push(Space { name: "refuse".into(), len: strings_total(REFUSE_ITEMS.len(), tier.pick(5, 7)) });
+    v.push(Space { name: "refchain".into(), len: (1..=tier.pick(3, 4)).map(refchain_count).sum() });
+    v.push(Space { name: "refmix".into(), len: strings_total(REFMIX_ITEMS.len(), tier.pick(3, 5)) });
     for c in 0..CARRIERS.len() {
         v.push(Space { name: format!("rel{c}"), len: strings_total(REL_TOKENS.len(), tier.pick(3, 4)) });
     }
     v
 }
 
+/// Reference chains: k named use / reuse elements (ids a..d) with EVERY assignment of hrefs among
+/// {^, #a..} x each optionally preceded by a plain rect (which moves what `^` means) x use|reuse per
+/// element x a final probe (use of / position relative to one of them, or none).
+fn refchain_count(k: usize) -> usize {
+    (k + 1).pow(k as u32) * (1 << k) * (1 << k) * (2 * k + 1)
+}
+
+fn refchain_doc(mut idx: usize, kmax: usize) -> Option<String> {
+    let mut k = 1;
+    loop {
+        if k > kmax {
+            return None;
+        }
+        let c = refchain_count(k);
+        if idx < c {
+            break;
+        }
+        idx -= c;
+        k += 1;
+    }
+    let ids = ["a", "b", "c", "d"];
+    let mut s = String::from("<svg><rect wh=\"2\"/>");
+    let mut hrefs = Vec::new();
+    for _ in 0..k {
+        hrefs.push(idx % (k + 1));
+        idx /= k + 1;
+    }
+    let seps = idx % (1 << k);
+    idx /= 1 << k;
+    let kinds = idx % (1 << k);
+    idx /= 1 << k;
+    let probe = idx;
+    for i in 0..k {
+        if seps >> i & 1 == 1 {
+            s.push_str("<rect wh=\"2\"/>");
+        }
+        let href = if hrefs[i] == 0 { "^".to_string() } else { format!("#{}", ids[hrefs[i] - 1]) };
+        s.push_str(&format!("<{} id=\"{}\" href=\"{}\"/>", if kinds >> i & 1 == 1 { "reuse" } else { "use" }, ids[i], href));
+    }
+    if probe >= 1 && probe <= k {
+        s.push_str(&format!("<use href=\"#{}\"/>", ids[probe - 1]));
+    } else if probe > k {
+        s.push_str(&format!("<rect xy=\"#{}|h 1\" wh=\"1\"/>", ids[probe - k - 1]));
+    }
+    s.push_str("</svg>");
+    Some(s)
+}
+
 fn space_case(space: &str, idx: usize, tier: Tier) -> Option<Case> {
     let plain = Cfg::plain();
+    if space == "refchain" {
+        let doc = refchain_doc(idx, tier.pick(3, 4))?;
+        return Some(Case { doc: doc.into_bytes(), cfg: plain, work: None, label: "refchain".into(), expr_direct: false });
+    }
     if space == "xml" {
         let s = strings_case(XML_TOKENS.len(), idx / 2, tier.pick(4, 5))?;
         let mut doc = Vec::new();
@@ -157,6 +253,12 @@ fn space_case(space: &str, idx: usize, tier: Tier) -> Option<Case> {
         let d: String = s.iter().map(|t| PATH_TOKENS[*t]).collect();
         let doc = format!("<svg><rect id=\"a\" wh=\"4\"/><path d=\"M0 0 {d}\"/><path d=\"{d}\" xy=\"#a|h\"/></svg>");
         return Some(Case { doc: doc.into_bytes(), cfg: plain, work: None, label: "path".into(), expr_direct: false });
+    }
+    if space == "refuse" || space == "refmix" {
+        let (items, max) = if space == "refuse" { (REFUSE_ITEMS, tier.pick(5, 7)) } else { (REFMIX_ITEMS, tier.pick(3, 5)) };
+        let s = strings_case(items.len(), idx, max)?;
+        let body: String = s.iter().map(|t| items[*t]).collect();
+        return Some(Case { doc: format!("<svg>{body}</svg>").into_bytes(), cfg: plain, work: None, label: space.to_string(), expr_direct: false });
     }
     if let Some(c) = space.strip_prefix("rel") {
         let ci: usize = c.parse().ok()?;
@@ -549,6 +651,9 @@ fn run_range_robust(tier: Tier, space: &str, start: usize, count: usize, always_
             machinery.lock().unwrap().push(format!("space {space}: too many worker restarts in range {start}..{end}"));
             break;
         }
+        if events.iter().filter(|e| matches!(e, Event::Abort { .. } | Event::Hang { .. })).count() >= 3 {
+            break;
+        }
         let r = run_range(tier, space, at, end - at, always_careful, stall);
         events.extend(r.events.clone());
         if r.died.is_none() {
@@ -780,7 +885,7 @@ impl Read for ChunkReader<'_> {
 
 pub fn run(tier: Tier) -> i32 {
     let mut rep = Report::new("C01", tier, "exploration");
-    rep.set("rule", json!(format!("(1) all strings of <= {} XML tokens from a {}-token alphabet (tags of every element family, attribute openers, quotes, comment/CDATA/PI delimiters, entities, a raw 0xFF byte) under 2 configurations; (2) all strings of <= {} tokens of the expression alphabet ({} tokens) through the attribute evaluator and <= {} inside carrier documents; <= {} tokens of the path alphabet ({}); <= {} tokens of the relspec alphabet ({}) in each of {} attribute carriers (every attribute the code parses by hand); (3) {} shape ladders (expression nesting, XML nesting per container kind, sibling/attribute/text/path/points/transform lengths, reuse/use/variable/^ chains, forward-reference chains, loops, growth, comments/CDATA/entities, class/surround/connector counts, unclosed and repeated roots) with rungs 1,2,4..2^{} under default, small and minimal limits. Every case runs in a sandboxed worker subprocess on a 2 MiB-stack thread: a panic (reported with its location), death by signal, a stall beyond the watchdog, or element evaluations above 8 x (requested work + 8) is a violation; a dying worker's window is re-run case by case to pin the input. (4) 30 outcome-class representatives and deep ladder rungs through the svgdx command (stdin->stdout and file->file: exit status 0/1, message on failure, no signal, within the watchdog) and through a live svgdx-server (status 200/400, server still answers afterwards). (5) for 40 documents every position at which the writer fails and reads delivered in chunks of 1/2/7 bytes. Non-trivial counts distinct cases that ran to a verdict.", tier.pick(4, 5), XML_TOKENS.len(), tier.pick(4, 5), EXPR_TOKENS.len(), tier.pick(3, 4), tier.pick(4, 5), PATH_TOKENS.len(), tier.pick(3, 4), REL_TOKENS.len(), CARRIERS.len(), LADDERS.len(), tier.pick(12, 17))));
+    rep.set("rule", json!(format!("(1) all strings of <= {} XML tokens from a {}-token alphabet (tags of every element family, attribute openers, quotes, comment/CDATA/PI delimiters, entities, a raw 0xFF byte) under 2 configurations; (2) all strings of <= {} tokens of the expression alphabet ({} tokens) through the attribute evaluator and <= {} inside carrier documents; <= {} tokens of the path alphabet ({}); <= {} tokens of the relspec alphabet ({}) in each of {} attribute carriers (every attribute the code parses by hand); (2b) reference graphs: every sequence of <= 5 (thorough 7) items from 10 use elements over ids a/b and ^, every sequence of <= 3 (thorough 5) items from 24 reference-bearing elements (positions, clip paths, surround/inside, use/reuse, self and mutual references), and every chain of <= 3 (thorough 4) named use/reuse elements with every href assignment among ^ and the ids x optional separating rects x use|reuse x final probe; (3) {} shape ladders (expression nesting, XML nesting per container kind, sibling/attribute/text/path/points/transform lengths, reuse/use/variable/^ chains, forward-reference chains, loops, growth, comments/CDATA/entities, class/surround/connector counts, unclosed and repeated roots) with rungs 1,2,4..2^{} under default, small and minimal limits. Every case runs in a sandboxed worker subprocess on a 2 MiB-stack thread: a panic (reported with its location), death by signal, a stall beyond the watchdog, or element evaluations above 8 x (requested work + 8) is a violation; a dying worker's window is re-run case by case to pin the input. (4) 30 outcome-class representatives and deep ladder rungs through the svgdx command (stdin->stdout and file->file: exit status 0/1, message on failure, no signal, within the watchdog) and through a live svgdx-server (status 200/400, server still answers afterwards). (5) for 40 documents every position at which the writer fails and reads delivered in chunks of 1/2/7 bytes. Non-trivial counts distinct cases that ran to a verdict.", tier.pick(4, 5), XML_TOKENS.len(), tier.pick(4, 5), EXPR_TOKENS.len(), tier.pick(3, 4), tier.pick(4, 5), PATH_TOKENS.len(), tier.pick(3, 4), REL_TOKENS.len(), CARRIERS.len(), LADDERS.len(), tier.pick(12, 17))));
     let machinery: Mutex<Vec<String>> = Mutex::new(Vec::new());
     let stall = Duration::from_secs(tier.pick(10, 30));
     let evaluated = AtomicU64::new(0);
@@ -798,10 +903,22 @@ pub fn run(tier: Tier) -> i32 {
         }
     }
     let all_events: Mutex<Vec<(String, Event)>> = Mutex::new(Vec::new());
+    let fatal_per_space: Mutex<std::collections::HashMap<String, usize>> = Mutex::new(std::collections::HashMap::new());
+    let skipped = AtomicU64::new(0);
     {
         use rayon::prelude::*;
         chunks.par_iter().for_each(|(name, start, n)| {
+            // a space that has already produced several aborts / hangs is not explored further: each one costs
+            // a watchdog period, and the verdict (exit 1) no longer depends on the rest
+            if fatal_per_space.lock().unwrap().get(name).copied().unwrap_or(0) >= 3 {
+                skipped.fetch_add(*n as u64, Ordering::Relaxed);
+                return;
+            }
             let evs = run_range_robust(tier, name, *start, *n, false, stall, &machinery);
+            let fatal = evs.iter().filter(|e| matches!(e, Event::Abort { .. } | Event::Hang { .. })).count();
+            if fatal > 0 {
+                *fatal_per_space.lock().unwrap().entry(name.clone()).or_insert(0) += fatal;
+            }
             evaluated.fetch_add(*n as u64, Ordering::Relaxed);
             let mut g = all_events.lock().unwrap();
             for e in evs {
@@ -857,6 +974,10 @@ pub fn run(tier: Tier) -> i32 {
     rep.add("evaluations", total_cases);
     rep.add("distinct_nontrivial", total_cases.saturating_sub(events.len() as u64));
     rep.set("sandboxed_cases", json!(total_cases));
+    if skipped.load(Ordering::Relaxed) > 0 {
+        rep.set("exhaustive", json!(false));
+        rep.set("cap_note", json!(format!("{} cases were skipped in spaces that had already produced 3 aborts / hangs (violations reported)", skipped.load(Ordering::Relaxed))));
+    }
     rep.set("token_spaces", json!(sp.iter().map(|s| json!({"space": s.name, "cases": s.len})).collect::<Vec<_>>()));
     rep.set("ladder_cases", json!(ladders.len()));
     rep.sample(json!({"space": "xml", "index": 123456, "input": String::from_utf8_lossy(&space_case("xml", 123456, tier).map(|c| c.doc).unwrap_or_default())}));
